@@ -339,7 +339,7 @@ def malform(rng, t):
 BASE_OFFSET = 3913056000 << 32        # the offset harness/impl/c06_osc.py gives SystemClock for the base-class interface
 
 
-def expected_tags(itf, send_time, t, out):
+def expected_tags(itf, send_time, t, out, ctx='main'):
     """the timetag of every list head that is a number or None (DFS preorder), transcribed from the
     documentation of send_bundle: None or negative -> immediately (1; 0 in NRT), otherwise
     now + latency in 32.32 fixed point.  The float operations are the ones the library performs,
@@ -349,10 +349,11 @@ def expected_tags(itf, send_time, t, out):
             v = pyval(t[0])
             if itf == 'base':
                 out.append(1 if v is None or v < 0.0 else int((v + send_time) * 4294967296.0) + BASE_OFFSET)
-            else:       # NRT, called from outside a routine: absolute time
-                out.append(int((0.0 if v is None or v < 0.0 else v) * 4294967296.0))
+            else:       # NRT: None/negative = now; absolute time outside a routine, from the routine's logical time inside one
+                lat = 0.0 if v is None or v < 0.0 else v
+                out.append(int((lat + send_time if ctx == 'routine' else lat) * 4294967296.0))
         for x in t:
-            expected_tags(itf, send_time, x, out)
+            expected_tags(itf, send_time, x, out, ctx)
 
 
 def build_cases(ctx):
@@ -360,7 +361,8 @@ def build_cases(ctx):
     cases = []
 
     def add(kind, v, cls, **kw):
-        c = {'kind': kind, 'v': v, 'send_time': rng.choice([0.0, 0.0, 1.5, 0.25]), 'itf': rng.choice(['nrt', 'base']), 'cls': cls}
+        c = {'kind': kind, 'v': v, 'send_time': rng.choice([0.0, 0.0, 1.5, 0.25]), 'itf': rng.choice(['nrt', 'base']), 'cls': cls,
+             'ctx': rng.choice(['main', 'main', 'routine'])}
         c.update(kw)
         cases.append(c)
     # systematic: every blob length 1..17 (top level and nested), every string length 0..9 ascii and non-ascii
@@ -389,8 +391,9 @@ def build_cases(ctx):
     for t in times:
         for itf in ('nrt', 'base'):
             for st in (0.0, 1.5):
-                add('bundle', [t, [S('/a'), I(1)]], 'time_top')
-                cases[-1].update({'itf': itf, 'send_time': st})
+                for cx in ('main', 'routine'):
+                    add('bundle', [t, [S('/a'), I(1)], [t, [S('/b')]]], 'time_top')
+                    cases[-1].update({'itf': itf, 'send_time': st, 'ctx': cx})
         add('msg', [S('/x'), [t, [S('/y')]], I(2)], 'time_in_bundle_blob')
         add('bundle', [t], 'time_empty_bundle')
         for t2 in times:
@@ -812,11 +815,11 @@ def correspond(ctx):
             tags[0] = k['tt']
         else:
             want = []
-            expected_tags(k.get('itf', 'nrt'), float(k.get('send_time', 0.0)), k['v'], want)
+            expected_tags(k.get('itf', 'nrt'), float(k.get('send_time', 0.0)), k['v'], want, k.get('ctx', 'main'))
             if [str(x) for x in want] != tags:
                 bad = [(a, b) for a, b in zip(want, tags) if str(a) != b][:1]
-                c.failures.append(Failure('correspondence', '_get_timetag (%s interface, send time %s) gives %s for a bundle time in %s, expected %s'
-                                          % (k.get('itf', 'nrt'), k.get('send_time', 0.0), bad[0][1] if bad else tags, show(k['v']), bad[0][0] if bad else want),
+                c.failures.append(Failure('correspondence', '_get_timetag (%s interface, called from %s, send time %s) gives %s for a bundle time in %s, expected %s'
+                                          % (k.get('itf', 'nrt'), 'inside a routine' if k.get('ctx') == 'routine' else 'the main thread', k.get('send_time', 0.0), bad[0][1] if bad else tags, show(k['v']), bad[0][0] if bad else want),
                                           signature='C06:timetag', found_input=True, theorem='bundle_roundtrip',
                                           replay={'check': 'timetag', 'case': k, 'observed': tags, 'expected': [str(x) for x in want]}))
         if o.get('mutated'):
@@ -846,8 +849,15 @@ def correspond(ctx):
                         p_idx.append(('case', n))
         else:
             c.count('build:refused:%s' % b[2])
-            b_items.append('(%s, ((%d, []) : Z * bytes))' % (term, b[1]))
-            b_idx.append(n)
+            if k.get('nobuild'):
+                # (these element lists are made of valid messages and exist for the size/clump comparison; the model's
+                # index-based parser is quadratic on a 130 kB bundle, so the refusal is reported without evaluating it)
+                c.failures.append(Failure('correspondence', 'the implementation refuses (%s) a bundle of %d valid messages like %s'
+                                          % (b[2], len(k['v']) - 1, show(k['v'][1])), replay={'check': 'build', 'case': {'cls': k['cls'], 'n': len(k['v']) - 1,
+                                                                                                                   'element': k['v'][1]}, 'impl': b}))
+            else:
+                b_items.append('(%s, ((%d, []) : Z * bytes))' % (term, b[1]))
+                b_idx.append(n)
         if k['kind'] == 'rawbundle':
             continue
         s_items.append('(%s, %s)' % (term, cz(o['pred'])))
@@ -1029,10 +1039,58 @@ def same_arg(d, e):
     return tuple(d) == tuple(e)
 
 
+def flat_expected(exp, tag=None):
+    """the (time, message) pairs OscPacket must return for an expected packet: depth first, then stable sort by time"""
+    if exp[0] == 'msg':
+        return [(tag, exp)]
+    out = []
+    for e in exp[2]:
+        out.extend(flat_expected(e, exp[1]))
+    return out
+
+
+def impl_same_arg(p, e):
+    """a parameter as the real parser returned it (canonical form of the runner) against the expected argument"""
+    if e[0] == 'pkt':
+        return p[0] == 'b' and same_arg(('b', bytes.fromhex(p[1])), e)
+    if e[0] == 'a':
+        return p[0] == 'a' and len(p[1]) == len(e[1]) and all(impl_same_arg(a, b) for a, b in zip(p[1], e[1]))
+    if e[0] == 'i':
+        return p[0] == 'i' and int(p[1]) == e[1]
+    if e[0] == 'f':
+        return (p[0] == 'f' and bytes.fromhex(p[1]) == e[1]) or (p[0] == 'nan' and e[1] != e[1])
+    if e[0] in 'sb':
+        return p[0] == e[0] and bytes.fromhex(p[1]) == e[1]
+    return False
+
+
+def library_parser_agrees(parse, exp):
+    if parse[0] != 'ok':
+        return False
+    want = flat_expected(exp)
+    if exp[0] == 'bundle':
+        want = sorted(want, key=lambda x: x[0])       # stable
+    got = parse[1]
+    if len(got) != len(want):
+        return False
+    for (tm, (addr, params)), (tag, m) in zip(got, want):
+        if (None if tm is None else int(tm)) != tag or bytes.fromhex(addr) != m[1] or len(params) != len(m[2]):
+            return False
+        if not all(impl_same_arg(p, e) for p, e in zip(params, m[2])):
+            return False
+    return True
+
+
+VALID_PROBES = set()     # ids of the probe trees that are valid by construction
+
+
 def probe_trees(ctx):
     """boundary-biased inputs, smallest first"""
     rng = ctx.rng
+    VALID_PROBES.clear()
     ts = [('msg', [S('/x')]), ('msg', [S('/abc')]), ('msg', [S('/x'), S('')]), ('msg', [S('/x'), S('abcd')]),
+          ('msg', [S('/x'), Y(b'a'), I(5)]), ('msg', [S('/x'), Y(b'abcde'), S('s'), Fl(1.5)]), ('msg', [S('/x'), S('['), Y(b'ab'), S('['), I(1), S(']'), S(']'), I(2)]),
+          ('msg', [S('/d_recv'), Y(b'abc'), [S('/s_new'), S('x'), I(-1)]]),
           ('msg', [S('/x'), None, True, False, [], I(-1), Fl(1.5)]), ('bundle', [Fl(0.2), [S('/x'), I(1)]])]
     for n in range(1, 18):
         ts.append(('msg', [S('/x'), Y(b'a' * n)]))
@@ -1049,6 +1107,9 @@ def probe_trees(ctx):
             ts.append(('msg', g_msg(rng, rng.choice([0, 1, 2, 3]), addrs=ADDRS)))
         else:
             ts.append(('bundle', g_bundle(rng, rng.choice([1, 2, 3]))))
+    for kind_, t_ in ts:          # everything so far is representable by construction, except the NUL probes
+        if not has_nul_str(pyval(t_)):
+            VALID_PROBES.add(id(t_))
     for _ in range(ctx.n(60, 600)):
         base = g_msg(rng, rng.choice([0, 1]), addrs=ADDRS)
         t, kind = malform(rng, base)
@@ -1102,12 +1163,21 @@ def search(ctx, failures):
 
     trees = probe_trees(ctx)
     cases = [{'kind': k, 'v': t, 'send_time': 0.0, 'itf': 'nrt'} for k, t in trees]
+    for k_, (kind_, t_) in zip(cases, trees):
+        if id(t_) in VALID_PROBES:
+            k_['valid'] = True
     for outer in (False, I(0), Fl(0.0), Fl(-0.0), Fl(0.5)):
         for inner in (None, Fl(-1.0)) + ((Fl(0.25),) if outer == Fl(0.5) else ()):
             cases.append({'kind': 'bundle', 'v': [outer, [S('/a')], [inner, [S('/b'), I(0)]]], 'send_time': 0.0, 'itf': 'base'})
     out = ctx.impl('c06_osc', {'cases': cases}, timeout=900)['out']
     for k, o in zip(cases, out):
-        if 'build' not in o or o['build'][0] != 'ok':
+        if 'build' not in o:
+            continue
+        if o['build'][0] != 'ok':
+            if k.get('valid'):
+                report('C06:valid_input_refused', 'a message/bundle of representable values is refused (%s): %s' % (o['build'][2], show(k['v'])),
+                       {'probe': 'roundtrip', 'case': k, 'observed': o['build'], 'expected': 'accepted and encoded',
+                        'command': './check C06 --replay <this file>'}, 'msg_roundtrip' if k['kind'] == 'msg' else 'bundle_roundtrip')
             continue
         v = pyval(k['v'])
         dgram = bytes.fromhex(o['build'][1])
@@ -1135,6 +1205,11 @@ def search(ctx, failures):
             why = 'decodes to different values'
         except osc10.Osc10Error as e:
             ok, why, dec = False, 'is not OSC 1.0: %s' % e, None
+        if ok and 'parse' in o and o['parse'][0] != 'unicode' and not library_parser_agrees(o['parse'], exp):
+            report('C06:library_parser_differs', 'the bytes are right, but the library\'s own parser (OscPacket) does not give back the arguments of %s: %s'
+                   % (show(k['v']), json.dumps(o['parse'])[:300]), {'probe': 'roundtrip', 'case': k, 'dgram': dgram.hex(), 'parsed': o['parse'],
+                                                                  'expected': repr(exp)[:600], 'command': './check C06 --replay <this file>'},
+                   'msg_roundtrip' if k['kind'] == 'msg' else 'bundle_roundtrip')
         if ok and dec is not None:
             bad = nested_time_violation(dec)
             if bad:
